@@ -14,12 +14,14 @@ fn tag_of(h: &Harness, ni: usize) -> u32 {
 
 pub fn run_template(h: &mut Harness, ch: &mut Choices) {
     h.classes.templates += 1;
-    let n = if h.prof.subscriptions { 5 } else { 4 };
+    let v2 = crate::choice::dv() >= 2;
+    let n = if h.prof.subscriptions { 5 } else { 4 } + if v2 { 1 } else { 0 };
     match ch.choose(n) {
         0 => shared_source(h, ch),
         1 => bind_of_bind(h, ch),
         2 => map_ref_gap(h, ch),
         3 => reobserve(h, ch),
+        4 if v2 => switch_between_existing(h, ch),
         _ => two_observers(h, ch),
     }
 }
@@ -38,12 +40,17 @@ macro_rules! some {
 fn shared_source(h: &mut Harness, ch: &mut Choices) {
     let xv = some!(h.act_new_var(gen_value(ch)));
     let x = h.vars[xv].tag;
-    let len = 1 + ch.choose(3);
-    let mut cur = Expr::Ref(x);
+    let v2 = crate::choice::dv() >= 2;
+    // decoder v2: the chain may hang off a second variable (a sibling of the bind's input), and
+    // may be taller, so that its height relative to the bind's change node varies
+    let yv = if v2 && ch.flag(1, 2) { Some(some!(h.act_new_var(gen_value(ch)))) } else { None };
+    let src = yv.map(|yv| h.vars[yv].tag).unwrap_or(x);
+    let len = if v2 { ch.choose(7) } else { 1 + ch.choose(3) };
+    let mut cur = Expr::Ref(src);
     for _ in 0..len {
         cur = Expr::Map(ch.byte() % 8, Box::new(cur));
     }
-    let d = some!(h.act_new_node(cur));
+    let d = if len == 0 { h.nodes.iter().position(|n| n.tag == src).unwrap() } else { some!(h.act_new_node(cur)) };
     let dt = tag_of(h, d);
     let observe_first = ch.flag(1, 2);
     let bind_first = ch.flag(1, 2);
@@ -74,7 +81,22 @@ fn shared_source(h: &mut Harness, ch: &mut Choices) {
     h.act_stabilise();
     h.after_action("stabilise");
     for _ in 0..1 + ch.choose(3) {
-        h.act_write(xv, WRITE_OPS[ch.choose(5)], gen_value(ch));
+        match yv {
+            None => h.act_write(xv, WRITE_OPS[ch.choose(5)], gen_value(ch)),
+            Some(yv) => {
+                // both, in either order (the order decides which is recomputed first), or one
+                let order = ch.choose(4);
+                if order == 0 || order == 2 {
+                    h.act_write(xv, WRITE_OPS[ch.choose(5)], gen_value(ch));
+                }
+                if order != 2 {
+                    h.act_write(yv, WRITE_OPS[ch.choose(5)], gen_value(ch));
+                }
+                if order == 1 || order == 3 {
+                    h.act_write(xv, WRITE_OPS[ch.choose(5)], gen_value(ch));
+                }
+            }
+        }
         h.act_stabilise();
         h.after_action("stabilise");
     }
@@ -89,8 +111,11 @@ fn bind_of_bind(h: &mut Harness, ch: &mut Choices) {
     let y = h.vars[yv].tag;
     let depth = 2 + ch.choose(4);
     let mut tall = Expr::Ref(y);
+    // decoder v2: half of the cases use identity maps, so that the outer bind gets taller
+    // without changing its value (the inner bind then keeps its right-hand side)
+    let same_value = crate::choice::dv() >= 2 && ch.flag(1, 2);
     for _ in 0..depth {
-        tall = Expr::Map(ch.byte() % 8, Box::new(tall));
+        tall = Expr::Map(if same_value { 7 } else { ch.byte() % 8 }, Box::new(tall));
     }
     let tall = some!(h.act_new_node(tall));
     let tall_t = tag_of(h, tall);
@@ -98,19 +123,48 @@ fn bind_of_bind(h: &mut Harness, ch: &mut Choices) {
     let b1 = some!(h.act_new_node(b1));
     let b1t = tag_of(h, b1);
     let scratch = |ch: &mut Choices| Expr::Map(ch.byte() % 8, Box::new(Expr::Lhs));
+    // decoder v2: the inner closure may read a sibling chain over a third variable whose height
+    // lands below, at or above the (raised) height of the inner bind's change node
+    let v2 = crate::choice::dv() >= 2;
+    let mut zv = None;
+    let mut sib = y;
+    if v2 && ch.flag(2, 3) {
+        let z = some!(h.act_new_var(gen_value(ch)));
+        zv = Some(z);
+        let zt = h.vars[z].tag;
+        let len = ch.choose(8);
+        let mut e = Expr::Ref(zt);
+        for _ in 0..len {
+            e = Expr::Map(7, Box::new(e));
+        }
+        sib = if len == 0 { zt } else { let n = some!(h.act_new_node(e)); tag_of(h, n) };
+    }
     let arms = vec![
-        Expr::Discard(Box::new(scratch(ch)), Box::new(Expr::MapCap(ch.byte() % 4, Box::new(Expr::Ref(y))))),
-        Expr::Discard(Box::new(scratch(ch)), Box::new(Expr::Map(ch.byte() % 8, Box::new(Expr::Lhs)))),
+        Expr::Discard(Box::new(scratch(ch)), Box::new(Expr::MapCap(ch.byte() % 4, Box::new(Expr::Ref(sib))))),
+        Expr::Discard(Box::new(scratch(ch)), Box::new(if v2 && ch.flag(1, 2) { Expr::MapN(ch.byte() % 10, vec![Expr::Ref(sib), Expr::Cap]) } else { Expr::Map(ch.byte() % 8, Box::new(Expr::Lhs)) })),
     ];
     let b2 = Expr::Bind(Box::new(Expr::Ref(b1t)), Rc::new(arms));
     let b2 = some!(h.act_new_node(b2));
+    if v2 && ch.flag(1, 2) {
+        // an earlier-registered dependant of the outer bind: the inner change node is then queued
+        // instead of being recomputed directly
+        let other = some!(h.act_new_node(Expr::Map(ch.byte() % 8, Box::new(Expr::Ref(b1t)))));
+        h.act_observe(other);
+    }
     h.act_observe(b2);
     h.act_stabilise();
     h.after_action("stabilise");
-    for _ in 0..1 + ch.choose(3) {
-        h.act_write(xv, WriteOp::Set, Val::I(ch.choose(4) as i32));
+    for _ in 0..1 + ch.choose(3) + if v2 { 1 } else { 0 } {
+        if !v2 || ch.flag(2, 3) {
+            h.act_write(xv, WriteOp::Set, Val::I(ch.choose(4) as i32));
+        }
         if ch.flag(1, 3) {
             h.act_write(yv, WRITE_OPS[ch.choose(5)], gen_value(ch));
+        }
+        if let Some(z) = zv {
+            if ch.flag(1, 2) {
+                h.act_write(z, WRITE_OPS[ch.choose(5)], gen_value(ch));
+            }
         }
         h.act_stabilise();
         h.after_action("stabilise");
@@ -209,4 +263,85 @@ fn two_observers(h: &mut Harness, ch: &mut Choices) {
     }
     h.act_stabilise();
     h.after_action("stabilise");
+}
+
+/// decoder v2: a bind that switches between nodes that exist outside it (chains with map_ref,
+/// shared with other dependants or observers), with the selector and the chains' input written in
+/// the same round in either order, silent periods, and the other users of the old right-hand
+/// side coming and going.
+fn switch_between_existing(h: &mut Harness, ch: &mut Choices) {
+    let pv = |ch: &mut Choices| {
+        if ch.flag(2, 3) {
+            Val::pair(Val::I(ch.choose(3) as i32), Val::I(ch.choose(3) as i32))
+        } else {
+            gen_value(ch)
+        }
+    };
+    let xv = some!(h.act_new_var(pv(ch)));
+    let x = h.vars[xv].tag;
+    let sv = some!(h.act_new_var(Val::I(0)));
+    let s = h.vars[sv].tag;
+    // an earlier dependant of x
+    let early = if ch.flag(1, 2) { h.act_new_node(Expr::Map(ch.byte() % 8, Box::new(Expr::Ref(x)))) } else { None };
+    let chain = |h: &mut Harness, ch: &mut Choices, base: u32| -> Option<usize> {
+        let mut e = match ch.choose(3) {
+            0 => Expr::Ref(base),
+            _ => Expr::MapRef(1 + ch.choose(2) as u8, Box::new(Expr::Ref(base))),
+        };
+        for _ in 0..ch.choose(4) {
+            e = Expr::Map(ch.byte() % 8, Box::new(e));
+        }
+        if matches!(e, Expr::Ref(_)) {
+            e = Expr::Map(ch.byte() % 8, Box::new(e));
+        }
+        h.act_new_node(e)
+    };
+    let p = some!(chain(h, ch, x));
+    let pt = tag_of(h, p);
+    // the second right-hand side: another chain over x, a chain built on the first, or an unrelated var
+    let q = match ch.choose(3) {
+        0 => some!(chain(h, ch, x)),
+        1 => some!(chain(h, ch, pt)),
+        _ => {
+            let o = some!(h.act_new_var(gen_value(ch)));
+            let t = h.vars[o].tag;
+            h.nodes.iter().position(|n| n.tag == t).unwrap()
+        }
+    };
+    let qt = tag_of(h, q);
+    let b = some!(h.act_new_node(Expr::Bind(Box::new(Expr::Ref(s)), Rc::new(vec![Expr::Ref(pt), Expr::Ref(qt)]))));
+    if let Some(e) = early {
+        if ch.flag(2, 3) {
+            h.act_observe(e);
+        }
+    }
+    // another user of the first right-hand side
+    let mut extra = if ch.flag(1, 2) { h.act_observe(p) } else { None };
+    if ch.flag(1, 3) {
+        h.act_stabilise();
+        h.after_action("stabilise");
+    }
+    h.act_observe(b);
+    h.act_stabilise();
+    h.after_action("stabilise");
+    for _ in 0..2 + ch.choose(5) {
+        let what = ch.choose(8);
+        // 0: x   1: sel   2: x then sel   3: sel then x   4: nothing   5: drop the extra user   6: x, 7: sel
+        if matches!(what, 0 | 2 | 6) {
+            h.act_write(xv, WriteOp::Set, pv(ch));
+        }
+        if matches!(what, 1 | 2 | 3 | 7) {
+            h.act_write(sv, WriteOp::Set, Val::I(ch.choose(2) as i32));
+        }
+        if what == 3 {
+            h.act_write(xv, WriteOp::Set, pv(ch));
+        }
+        if what == 5 {
+            if let Some(o) = extra.take() {
+                h.act_drop_obs(o, 0);
+            }
+        }
+        h.act_stabilise();
+        h.after_action("stabilise");
+    }
 }
